@@ -238,15 +238,21 @@ func (p *poller) SetWrite(slot *Slot) error {
 func (p *poller) setRW(fd int, slot *Slot, flag PollerEvent) error {
 	events := &slot.Events
 	if *events&flag != flag {
-		p.pending++
-
 		oldEvents := *events
 		*events |= flag
 
+		var err error
 		if oldEvents == 0 {
-			return p.add(fd, createEvent(*events, slot))
+			err = p.add(fd, createEvent(*events, slot))
+		} else {
+			err = p.modify(fd, createEvent(*events, slot))
 		}
-		return p.modify(fd, createEvent(*events, slot))
+		if err != nil {
+			// Nothing was registered: the event will never be dispatched, so it must not be pending.
+			*events = oldEvents
+			return err
+		}
+		p.pending++
 	}
 	return nil
 }
